@@ -644,6 +644,12 @@ func (l MultiaddrList) CodecEncodeSelf(e *codec.Encoder) {
 func (l *MultiaddrList) CodecDecodeSelf(d *codec.Decoder) {
 	var wrapped []Multiaddr
 	d.MustDecode(&wrapped)
+	for _, m := range wrapped {
+		if m.Value() == nil {
+			// a nil entry cannot be encoded again (nor stored): refuse it
+			panic(errors.New("nil multiaddress in list"))
+		}
+	}
 	l.unwrap(wrapped)
 }
 
